@@ -531,7 +531,7 @@ def gen_copy(rng, plain):
             # top-level `b.data |= a.data[..]` is not generated: dict.__ior__/list.__iadd__ are not intercepted (listed
             # finding C28-TOPLEVEL-AUGASSIGN-NESTED-UNWRAPPED), there the other object's nested tracked containers end
             # up shared, which the rewrite-based classification of that finding cannot judge
-            if st['op'] == 'ior' and not dpath: st.update(op='update', form='direct')
+            if st['op'] == 'ior' and (not dpath or src == dst): st.update(op='update', form='direct')
         else:
             n = len(dval)
             op = rng.choice(('append', 'append', 'insert', 'setitem', 'extend', 'iadd') if isinstance(sval, list)
@@ -542,7 +542,9 @@ def gen_copy(rng, plain):
             elif op == 'setitem': st.update(op='setitem', args=[rng.randrange(-n, n), ref])
             elif op == 'extend': st.update(op='extend', args=[ref])
             else: st.update(op='iadd', args=[ref], form='parent')
-            if st['op'] == 'iadd' and not dpath: st.update(op='extend', form='direct')
+            # (`d['c'] |= d` / `l[0] += l` on overlapping parts of one value build a cyclic structure in plain Python
+            # as well; not a JSON value, so the operator forms are only generated across slots)
+            if st['op'] == 'iadd' and (not dpath or src == dst): st.update(op='extend', form='direct')
         return st
     return {'k': 'flush'}
 
@@ -1267,12 +1269,12 @@ def run(ctx):
             n += 1
             ctx.count('matrix_cases')
         # 2. random multi-session histories
-        total = 8000 if ctx.tier == 'quick' else 20000
+        total = 8000 if ctx.tier == 'quick' else 15000
         for i in range(total):
             run_one(env, ctx, rng=rng, sample=(i % 401 == 0))
             ctx.count('random_cases')
         # 3. read-only histories (M4 is the deciding monitor for the second sentence of the property)
-        total_ro = 1500 if ctx.tier == 'quick' else 3000
+        total_ro = 1500 if ctx.tier == 'quick' else 2500
         for i in range(total_ro):
             plan = [{'readonly': True, 'n': rng.choice((2, 4, 8, 12))} for _ in range(rng.choice((1, 2)))]
             run_one(env, ctx, rng=rng, plan=plan, start='loaded', sample=(i % 251 == 0))
@@ -1281,7 +1283,7 @@ def run(ctx):
         env.close()
     ctx.extra['executed_on'] = ['sqlite']
     # floors are per process (each shard of the thorough tier evaluates them on its own counters)
-    k = 1 if ctx.tier == 'quick' else 2
+    k = 1 if ctx.tier == 'quick' else 1.5
     ctx.floor('monitor.commit_points', 8000 * k)
     ctx.floor('outcome.mut_ok', 10000 * k)
     ctx.floor('monitor.readonly_sessions', 1500 * k)
